@@ -154,6 +154,7 @@ class UvTicker:
         self.last_activity = 0
         self.abort_hooks: list[Callable[[str], None]] = []
         self.aborted: str | None = None
+        self.aborted_at = 0
         self.main_task: asyncio.Task | None = None
         loop.call_soon(self._tick)
 
@@ -171,11 +172,18 @@ class UvTicker:
             and self.cycles - self.last_activity > self.stuck_ticks
         ):
             self.aborted = "deadlock"
+            self.aborted_at = self.cycles
             for hook in self.abort_hooks:
                 hook("deadlock")
 
             if self.main_task is not None:
                 self.main_task.cancel()
+        elif self.aborted is not None and (self.cycles - self.aborted_at) % 50 == 49:
+            # the verdict has been recorded; getting the program out must not depend on the
+            # library's own cancellation machinery (which may be what is broken): cancel
+            # every task natively, again and again, until the run ends
+            for t in asyncio.all_tasks(self.loop):
+                t.cancel()
 
         self.loop.call_soon(self._tick)
 
